@@ -18,7 +18,7 @@ META = {
     "require": {t: ["class:fact=cols", "class:fact=1col", "class:w=scalar", "class:w=tuple", "class:w=array",
                     "class:w=none", "class:ignore", "class:propagate", "class:xdtype=from_index", "class:xdtype=signed",
                     "class:ndims=0", "class:ndims>=3", "class:xshape=inferred", "class:fact=int",
-                    "class:cols+weights+propagate", "compared:ccube", "compared:xcube"] for t in ("quick", "thorough")},
+                    "class:cols+weights+propagate", "compared:ccube", "compared:xcube", "class:cell_counter_on_boundary"] for t in ("quick", "thorough")},
     "assumptions": ["tolerance 1e-9*max(1, sum|w*x|) (x20 for means); missing sets compared exactly",
                     "weights are >= 0 and never tiny-positive (< 0.05), so 'weight sum is zero' is unambiguous",
                     "array cube with inferred shape only for N >= 1 (a dense array of zero rows carries no extent)"],
@@ -27,13 +27,19 @@ META = {
 
 def shards(tier):
     if tier == "quick":
-        return [{"label": "inputs%d" % i, "n": 110} for i in range(14)]
+        return [{"label": "inputs%d" % i, "n": 220} for i in range(14)]
     return [{"label": "inputs%d" % i, "n": 5500} for i in range(16)]
 
 
 def cases(ctx):
     rng = ctx.rng
     for i in range(ctx.shard["n"]):
+        if i % 40 == 7:
+            c = aggr.counter_boundary_case(rng)
+            c["xdtype"] = gen.pick(rng, ["signed", "unsigned", "int64"])
+            c["xshape_inferred"] = False
+            yield c
+            continue
         c = gen.cube_case(rng, max_dims=4, n=gen.pick(rng, [1, 2, 3, 5, 8, 17, 40, 60, 120]) if rng.random() < 0.9 else 0)
         n = c["dense"][0].shape[0] if c["dense"] else gen.pick(rng, [1, 4, 9])
         c["n"] = n
@@ -81,6 +87,8 @@ def judge(ctx, case):
     ctx.count("class:fact=" + ("cols" if f["values"].ndim == 2 else "1col"))
     ctx.count("class:fact=" + ("int" if f["values"].dtype.kind == "i" else "float"))
     ctx.count("class:w=" + w["kind"])
+    if case.get("boundary_m"):
+        ctx.count("class:cell_counter_on_boundary")
     ctx.count("class:ignore" if case["ignore_missing"] else "class:propagate")
     ctx.count("class:ndims=%d" % len(dense) if len(dense) < 3 else "class:ndims>=3")
     if f["values"].ndim == 2 and w["kind"] in ("array", "tuple") and not case["ignore_missing"]:
